@@ -41,17 +41,26 @@ class Site:
 
 
 class Defn:
-    def __init__(self, fails=False, sites=(), limits=None):
+    def __init__(self, fails=False, sites=(), limits=None, reads_ctx=False):
         self.fails = fails
         self.sites = list(sites)
         self.limits = limits          # definition-time limits option
+        self.reads_ctx = reads_ctx    # signature (a=get_context("a", 0), b=get_context("b", 0)); returns them
 
     def to_json(self):
-        return {"fails": self.fails, "limits": self.limits, "sites": [s.to_json() for s in self.sites]}
+        d = {"fails": self.fails, "limits": self.limits, "sites": [s.to_json() for s in self.sites]}
+        if self.reads_ctx:
+            d["reads_ctx"] = True
+        return d
 
 
 class Program:
+    ns_count = [0]
+
     def __init__(self, defs, limits_cfg, root_site=None):
+        Program.ns_count[0] += 1
+        self.ns = "vp%d" % Program.ns_count[0]         # task namespace: stable across runs of this program
+        self.versions = {}                              # callee index -> version string (edits)
         self.defs = defs
         self.limits_cfg = limits_cfg          # configured limits (name -> int); unconfigured = 1
         self.root_site = root_site or Site(0)
@@ -66,6 +75,12 @@ class Program:
     def unfold(self, max_specs=60):
         self.specs = []
         ctx_ids = {json.dumps({}, sort_keys=True): 0}
+        key_ids = {}
+
+        def key_id(k):
+            if k not in key_ids:
+                key_ids[k] = len(key_ids)
+            return key_ids[k]
 
         def ctx_id(c):
             k = json.dumps(c, sort_keys=True)
@@ -87,7 +102,8 @@ class Program:
                 lim = {}
             if isinstance(lim, list):
                 lim = {n: 1 for n in lim}
-            return dict(site=site, key=site.callee, ctxd=ctx, ctx=ctx_id(ctx), limits=lim, scope=scope,
+            kk = (site.callee, ctx.get("a", 0), ctx.get("b", 0)) if d.reads_ctx else (site.callee,)
+            return dict(site=site, callee=site.callee, key=key_id(kk), ctxd=ctx, ctx=ctx_id(ctx), limits=lim, scope=scope,
                         cseOk=not site.cse_off, prov=prov, execOk=site.executor is None, fails=d.fails,
                         children=[])
 
@@ -96,7 +112,7 @@ class Program:
         i = 0
         while i < len(self.specs):
             sp = self.specs[i]
-            d = self.defs[sp["key"]]
+            d = self.defs[sp["callee"]]
             if not d.fails:
                 for st in d.sites:
                     if len(self.specs) >= max_specs:
@@ -105,6 +121,20 @@ class Program:
                     sp["children"].append(len(self.specs))
                     self.specs.append(ch)
             i += 1
+
+    def expected(self, i=0):
+        """value the call at tree position i denotes (reference evaluation, context-exact); raises KeyError
+        if a call in its subtree fails"""
+        sp = self.specs[i]
+        d = self.defs[sp["callee"]]
+        if d.fails:
+            raise KeyError("boom%d" % sp["callee"])
+        if not sp["execOk"]:
+            raise KeyError("executor")
+        head = ["k%d" % sp["callee"]]
+        if d.reads_ctx:
+            head += [sp["ctxd"].get("a", 0), sp["ctxd"].get("b", 0)]
+        return head + [self.expected(c) for c in sp["children"]]
 
     def model_specs(self, pre=None):
         out = []
@@ -147,9 +177,10 @@ def gen_program(rng, n_defs=None, max_sites=3, p_fail=0.15, p_limits=0.6, p_opt=
                     if allow_badexec and rng.random() < 0.06:
                         st.executor = "nope"
                     if allow_ctx and rng.random() < p_ctx:
-                        st.ctx = rng.choice([{"a": 1}, {"a": 2}, {"b": 1}, {"a": 1}])
+                        st.ctx = rng.choice([{"a": 1}, {"a": 2}, {"b": 1}, {"a": 1}, {"a": 0}])
                     sites.append(st)
-            defs.append(Defn(fails, sites, lim))
+            reads = allow_ctx and not sites and not fails and rng.random() < 0.5
+            defs.append(Defn(fails, sites, lim, reads_ctx=reads))
         cfg = {}
         for r in RES:
             if rng.random() < 0.7:
@@ -169,15 +200,11 @@ def feasible(p: Program) -> bool:
 
 
 # ---------------------------------------------------------------------------------------- real tasks
-_counter = [0]
-
-
 def build_real(p: Program):
-    """Define real redun tasks for the program; returns the root expression."""
-    _counter[0] += 1
-    ns = "vp%d" % _counter[0]
+    """Define real redun tasks for the program (namespace p.ns, versions p.versions); returns the root expression."""
+    from redun.context import get_context
+    ns = p.ns
     tasks = {}
-    vid = [0]
 
     def call(site, spec_id):
         t = tasks[site.callee]
@@ -198,19 +225,25 @@ def build_real(p: Program):
         return t.options(**opts)()
 
     def make(i, d):
-        def body():
+        def run_body(extra):
             from redun.executors.local import get_current_job
             _s, job = get_current_job()
-            my_spec = job.get_option("vid")
+            my_spec = job._vid
             if d.fails:
                 raise ValueError("boom%d" % i)
             kids = p.specs[my_spec]["children"]
-            return ["k%d" % i] + [call(st, kids[n]) for n, st in enumerate(d.sites)]
+            return ["k%d" % i] + extra + [call(st, kids[n]) for n, st in enumerate(d.sites)]
+        if d.reads_ctx:
+            def body(a=get_context("a", 0), b=get_context("b", 0)):
+                return run_body([a, b])
+        else:
+            def body():
+                return run_body([])
         body.__name__ = "k%d" % i
         kw = {}
         if d.limits is not None:
             kw["limits"] = d.limits
-        return task(name="k%d" % i, namespace=ns, version="1", **kw)(body)
+        return task(name="k%d" % i, namespace=ns, version=p.versions.get(i, "1"), **kw)(body)
 
     for i in reversed(range(len(p.defs))):
         tasks[i] = make(i, p.defs[i])
